@@ -112,6 +112,12 @@ class Gen:
             return ('lit', '#', v)
         return ('lit', '$', r.choice(STR_POOL))
 
+    def nonzero_lit(self, t):
+        r = self.r
+        if t in '%&':
+            return ('lit', t, r.choice([1, 2, 3, 5, 7, 10, 100]))
+        return ('lit', t, r.choice([0.5, 1.5, 2.5, 4.0, 0.25]))
+
     def numt(self):
         return self.r.choice('%%%&&!!#')
 
@@ -161,9 +167,9 @@ class Gen:
     def index_expr(self, sc, lb, ub):
         r = self.r
         p = r.random()
-        if p < 0.8:
+        if p < 0.85:
             v = r.randint(lb, ub)
-        elif p < 0.9:
+        elif p < 0.97:
             v = r.choice([lb, ub])
         else:
             v = r.choice([lb - 1, ub + 1])      # subscript out of range on purpose
@@ -244,6 +250,8 @@ class Gen:
                 self.features.add('pow')
                 return e
             b = self.nexpr(sc, tb, depth - 1)
+            if op == '/' and r.random() < 0.8:
+                b = self.nonzero_lit(tb)       # most divisors are non-zero (division by zero stays reachable)
             a = self.paren_if_needed(a)
             b = self.paren_if_needed(b, right=True)
             e = ('bin', op, a, b)
@@ -260,6 +268,10 @@ class Gen:
                 ta, tb = tb, ta
             a = self.paren_if_needed(self.nexpr(sc, ta, depth - 1))
             b = self.paren_if_needed(self.nexpr(sc, tb, depth - 1), right=True)
+            if r.random() < 0.8:
+                b = self.nonzero_lit(tb)
+                if o.neg_intdiv and r.random() < 0.3:
+                    b = ('par', ('un', '-', b))
             e = ('bin', op, a, b)
             if etype(e) != t:
                 return self.atom(sc, t)
@@ -470,7 +482,9 @@ class Gen:
         if r.random() < 0.4:
             prev = [c for c in sc.consts + self.shared.consts if c[1] == t]
             b = ('var',) + r.choice(prev) if prev and r.random() < 0.5 else ('lit', t, r.choice([1, 2, 3]) if t in '%&' else 1.5)
-            return ('bin', r.choice(['+', '-']), a, b)
+            # a CONST whose expression overflows is a compile-time matter in QBASIC and a use-time one here: not generated
+            op = '-' if (a[2] > 1000 or b[0] == 'var') else r.choice(['+', '-'])
+            return ('bin', op, a, b)
         return a
 
     def declare_array(self, sc, body, scope_kw='dim'):
@@ -812,10 +826,14 @@ class Gen:
             items = []
             for _ in range(r.choice([1, 1, 2])):
                 p = r.random()
-                ct = t if t == '$' or r.random() < 0.7 else (t if t in '%&' else r.choice('%!#'))
-                # no fractional case values against integral selectors (grey zone)
-                if t in '%&':
-                    ct = r.choice('%&') if t == '&' else '%'
+                # case values are never wider than the selector (how a narrower selector compares with a wider
+                # case value is dialect-dependent) and never fractional against an integral selector
+                if t == '$':
+                    ct = '$'
+                else:
+                    ct = NUM[r.randint(0, RANK[t])] if r.random() < 0.5 else t
+                    if t in '%&' and ct not in '%&':
+                        ct = t
                 mk = (lambda: self.lit(ct))
                 if p < 0.6:
                     items.append(['v', mk()])
